@@ -92,10 +92,21 @@ def variable_lists():
     out.append(('floats6+mem_u32', [('toc', 'fill%d.x%d' % (i // 30, i), 'float') for i in (6, 14, 22, 30, 38, 46)]
                 + [('mem', 'my', 'uint32_t', 'uint32_t', 0x200)]))
     out.append(('mem7float', [('mem', 'f%d' % i, 'float', 'float', 0x300 + 4 * i) for i in range(7)]))
+    # every sequence of table ('T') and raw-memory ('M') one-byte variables up to a length: every way the 3-byte and
+    # 5-byte records can fall on the 30-byte message boundary
+    for L in range(1, (13 if _MIX_DEEP else 11)):
+        for pat in itertools.product('TM', repeat=L):
+            if 'M' not in pat or 'T' not in pat:
+                continue
+            lst = []
+            for i, ch in enumerate(pat):
+                lst.append(('toc', 'u.b%d' % i, 'uint8_t') if ch == 'T' else ('mem', 'q%d' % i, 'uint8_t', 'uint8_t', 0x500 + i))
+            out.append(('mix:' + ''.join(pat), lst))
     out.append(('mem6float+u16', [('mem', 'f%d' % i, 'float', 'float', 0x300 + 4 * i) for i in range(6)] + [('mem', 'h', 'uint16_t', 'uint16_t', 0x400)]))
     return out
 
 
+_MIX_DEEP = False
 PERIODS = (0, 9, 10, 19, 20, 100, 1000, 2540, 2549, 2550, 2560, 10.5, 99.9)
 
 
@@ -497,6 +508,76 @@ class _Life:
         return True
 
 
+AUTO_EVENTS = ('add', 'start', 'stop', 'delete', 'reconnect')
+
+
+def part_life_auto(job):
+    """Same life-cycle model, but the device answers every request at once (no withheld acknowledgements): the
+    histories are sequences of user operations only, so longer ones are affordable."""
+    nvars, depth = job
+    p = Partial()
+    seen = set()
+    frontier = [()]
+    maxd = 0
+
+    def build(hist):
+        life = _Life(nvars)
+        life.link.manual = None
+        orig_send = life.link.send_packet
+        acks = []
+
+        def send(pk):
+            n0 = len(life.link.rxq)
+            r = orig_send(pk)
+            for (h, payload) in life.link.rxq[n0:]:
+                if (h >> 4) == 5 and (h & 3) == 1 and payload[:1] != b'\x05':
+                    acks.append(payload)
+            return r
+        life.link.send_packet = send
+        for ev in hist:
+            del acks[:]
+            life.step(ev)
+            if ev != 'reconnect':
+                life.seqcf.pump(life.cf)
+            # the model consumes the acknowledgements in the order the device sent them; the start request that the
+            # library issues on the create acknowledgement is answered (and modelled) too
+            done = 0
+            while done < len(acks):
+                life._model_ack(acks[done])
+                done += 1
+        return life
+
+    l0 = build(())
+    seen.add(l0.canon())
+    p.states += 1
+    while frontier:
+        nxt = []
+        for hist in frontier:
+            if len(hist) >= depth:
+                continue
+            base = build(hist)
+            for ev in AUTO_EVENTS:
+                if not base.enabled(ev):
+                    continue
+                h2 = hist + (ev,)
+                life = build(h2)
+                p.transitions += 1
+                # invariants: flags follow the acknowledgements; variable list stable
+                life.sent = []
+                life.expect_start = False
+                ok = life.check(p, h2)
+                k = life.canon()
+                p.case(key=('auto', nvars, h2), outcome=k[:6])
+                if ok and k not in seen:
+                    seen.add(k)
+                    p.states += 1
+                    nxt.append(h2)
+                    maxd = max(maxd, len(h2))
+        frontier = nxt
+    p.add('life_auto_max_depth_%d' % nvars, maxd)
+    return p
+
+
 def part_life(job):
     nvars, depth = job
     p = Partial()
@@ -671,14 +752,18 @@ def run(ck):
               'record = type byte + 32-bit address)')
     ck.assume('for table variables only the fetch nibble of the type byte is checked (the firmware ignores the stored nibble)')
     ck.assume('periods 2541..2549 ms are accepted either way (statement says 2.54 s, the wire field allows 254 ticks)')
+    global _MIX_DEEP
+    _MIX_DEEP = not ck.quick
     lists = variable_lists()
     jobs = []
-    for i in range(0, len(lists), 8):
-        jobs.append(('accept', (lists[i:i + 8], (100,))))
+    for i in range(0, len(lists), 64):
+        jobs.append(('accept', (lists[i:i + 64], (100,))))
     jobs.append(('accept', ([l for l in lists if l[0] in ('count:3', 'hi-ids', 'count:26', 'count:27', 'missing@1', 'empty')], PERIODS)))
     depth = 4 if ck.quick else 6
     jobs.append(('life', (2, depth if ck.quick else depth + 1)))
     jobs.append(('life', (10, depth)))
+    jobs.append(('life_auto', (2, 6 if ck.quick else 8)))
+    jobs.append(('life_auto', (10, 5 if ck.quick else 7)))
     ck.pmap(_dispatch, jobs)
     from vf import cfh
     from vf.explore import explore
